@@ -313,6 +313,7 @@ def run(ctx: Ctx) -> None:
     ctx.call(sync_table, "3")
     ctx.call(N.clean_decision_table, "4", True)
     ctx.call(T.t_g5, "5/T.G5")
+    ctx.call(T.t_g5u, "5u/T.G5u")
     ctx.call(N.readiness_table, "6", "cleanup")
     ctx.call(N.pick_agreement, "6p", "cleanup")
     from . import atoms as A
@@ -325,6 +326,7 @@ def run(ctx: Ctx) -> None:
 
 G = "cartgraph/graph.py"
 MUTANTS = [
+    ("postponement-ignores-own-unrolling", "cartgraph/graph.py", "                    if not next.is_flat() and len(unexplored_nodes + unrolling_nodes) > 0:", "                    if not next.is_flat() and len(unexplored_nodes) > 0:", "5u/T.G5u"),
     ("sync-image-keys-without-vm", "cartgraph/node.py", "            suffixes += f\"_{vm_name}\" if test_object.key == \"images\" else \"\"", "            suffixes += f\"_{vm_name}\" if test_object.key != \"images\" else \"\"", "3a"),
     ("sync-selection-by-wrong-vm", "cartgraph/node.py", "                test_object.suffix\n                if test_object.key == \"vms\"\n                else test_object.composites[0].suffix", "                test_object.suffix\n                if test_object.key != \"vms\"\n                else test_object.composites[0].suffix", "3a"),
     ("reversible-means-last-object", "cartgraph/node.py", "            if is_reversible:\n                break\n        else:\n            is_reversible = False", "            if not is_reversible:\n                break\n        else:\n            is_reversible = False", "r"),
